@@ -12,6 +12,10 @@ Suites
                        strings) and ids containing "key"/"Key"; the error/warning entries of the report
                        details, attributed to the string id, against the token-level oracle and against
                        the model's answer for the entities of the same files
+  ANDROID-CHECK-after-wrap  the reference document parsed once; the parsed reference goes through
+                       serializer.serialize and refEntity.wrap(translation) before every check (as in
+                       serialisation / merge); the SAME entity objects are then checked: wrap must
+                       not change what the reference says (model fed the reference as parsed)
   ANDROID-CHECK-types  hand-built entities of other resource types (nodeName branches)
   ANDROID-apostrophes  check_apostrophes on strings over the quoting alphabet (+ backslash,
                        newline) against the model
@@ -292,7 +296,7 @@ def judge(chk, case, issues, prefix="", extra=None):
 
 
 # --------------------------------------------------------- implementation ---
-def build_entities(items):
+def build_entities(items, full=False):
     """items: list of (value xml, translatable flag | None) -> list of AndroidEntity, parsed
     from one real strings.xml document by the real parser"""
     from compare_locales import parser
@@ -305,10 +309,11 @@ def build_entities(items):
     lines.append("</resources>")
     p = parser.getParser("strings.xml")
     p.readUnicode("\n".join(lines) + "\n")
-    ents = [e for e in p.walk() if isinstance(e, parser.android.AndroidEntity)]
+    walk = list(p.walk())
+    ents = [e for e in walk if isinstance(e, parser.android.AndroidEntity)]
     if len(ents) != len(items) or any(e.key != f"k{i}" for i, e in enumerate(ents)):
         raise RuntimeError("strings.xml document did not parse into the expected entities")
-    return ents
+    return (ents, walk) if full else ents
 
 
 def node_sx(node):
@@ -345,22 +350,39 @@ def canon_issues(issues):
             for s, p, m, c in issues]
 
 
-def run_pairs(chk, model, suite, cases, oracle=True):
-    """cases: list of (ref tokens, l10n tokens, rflag, lflag)"""
+def run_pairs(chk, model, suite, cases, oracle=True, wrapped=False):
+    """cases: list of (ref tokens, l10n tokens, rflag, lflag).
+    wrapped: the reference document is parsed ONCE; the parsed reference goes through
+    serializer.serialize and, before every check, refEntity.wrap(<the translation>) as in a
+    serialisation / merge; the entities checked are those same objects."""
     refs, l10ns = {}, {}
     for r, l, rf, lf in cases:
         refs.setdefault((value_xml(r), rf), len(refs))
         l10ns.setdefault((value_xml(l), lf), len(l10ns))
-    rents = build_entities(list(refs))
+    rents, rwalk = build_entities(list(refs), full=True)
     lents = build_entities(list(l10ns))
-    rsx = [entity_sx(e, False) for e in rents]
+    rsx = [entity_sx(e, False) for e in rents]      # the reference as parsed
     lsx = [entity_sx(e) for e in lents]
+    prefix = ""
+    if wrapped:
+        from compare_locales import serializer
+        prefix = "after-wrap-"
+        try:
+            serializer.serialize("strings.xml", rwalk, [],
+                                 {e.key: "%7$d it's \"\" @string/x" for e in rents[::2]})
+        except Exception as e:  # noqa
+            chk.fail("serialize-raises", {"suite": suite}, repr(e))
     checker = get_checker()
     impl, reqs = [], []
     for case in cases:
         r, l, rf, lf = case
         ri, li = refs[(value_xml(r), rf)], l10ns[(value_xml(l), lf)]
         raw = []
+        if wrapped:
+            try:
+                rents[ri].wrap(lents[li].raw_val)
+            except Exception as e:  # noqa
+                chk.hist("wrap_raises", type(e).__name__)
 
         def go():
             raw.extend(checker.check(rents[ri], lents[li]))
@@ -373,9 +395,13 @@ def run_pairs(chk, model, suite, cases, oracle=True):
             chk.distinct.add((suite, ri, li))
         if oracle:
             if res[0] != 0:
-                chk.fail("check-raises", {"ref": value_xml(r), "l10n": value_xml(l)}, res)
+                chk.fail(prefix + "check-raises", {"ref": value_xml(r), "l10n": value_xml(l)}, res)
             else:
-                judge(chk, case, raw)
+                judge(chk, case, raw, prefix=prefix,
+                      extra={"sequence": "reference parsed once; serializer.serialize(reference); "
+                                         "refEntity.wrap(l10n value) before each check; earlier "
+                                         "pairs of the suite used the same reference objects"}
+                      if wrapped else None)
                 kinds = sorted({kind_of(m) for s, _, m, _ in raw if s == "error"})
                 chk.hist("error_kinds", "+".join(kinds) or
                          ("warning-only" if raw else "none"))
@@ -632,6 +658,17 @@ def run(chk, runner_ok):
                       rng.choice(FLAGS) if rng.random() < 0.1 else None))
     run_pairs(chk, model, "ANDROID-CHECK-wild", cases, oracle=False)
 
+    # ---- the reference entity after it went through wrap() / serialize ---------
+    aseq2 = list(seqs(ARGS + ["a"], 2))
+    cases = [(r, l, None, None) for r in aseq2 for l in aseq2]
+    for _ in range(chk.n(1500, 15000)):
+        r = rng.choice(panel) if rng.random() < 0.5 else random_tokens(rng, False)
+        cases.append((r, random_tokens(rng, False),
+                      rng.choice(FLAGS) if rng.random() < 0.05 else None,
+                      rng.choice(FLAGS) if rng.random() < 0.05 else None))
+    rng.shuffle(cases)
+    run_pairs(chk, model, "ANDROID-CHECK-after-wrap", cases, wrapped=True)
+
     # ---- end to end through ContentComparer ------------------------------------
     pool = [[], ["a"], ["a", "ap", "a"], ["a", "q", "q"], ["at", "a"], ["a", "markup", "a"],
             ["%1$s", "sp", "%1$d"], ["%s", "sp", "%d"], ["%1$s"], ["q", "a", "ap", "a", "q"],
@@ -755,6 +792,11 @@ def replay(chk, path):
         else:
             r = build_entities([(c["ref"], c["ref_translatable"])])[0]
             l = build_entities([(c["l10n"], c["l10n_translatable"])])[0]
+            if f["signature"].startswith("after-wrap-"):
+                try:
+                    r.wrap(l.raw_val)
+                except Exception as e:  # noqa
+                    print("wrap raised", repr(e))
             got = [(s, int(p), m, cat) for s, p, m, cat in checker.check(r, l)]
         print("case", c, "\n  impl    ", got, "\n  recorded", f["detail"])
         exp = f["detail"].get("expected") if isinstance(f["detail"], dict) else None
